@@ -129,10 +129,10 @@ impl SimCtx {
     fn with_locks<T>(&mut self, f: impl FnOnce(&mut Simulator) -> T) -> T {
         let kbuf = self.kb.as_ref().map(|k| k.get_buffer().clone());
         let dbuf = self.ds.as_ref().map(|d| d.get_buffer().clone());
-        let _g1 = if self.kb_locked == 1 { kbuf.as_ref().map(|k| k.write().unwrap()) } else { None };
-        let _g2 = if self.ds_locked == 1 { dbuf.as_ref().map(|d| d.write().unwrap()) } else { None };
-        let _g3 = if self.kb_locked == 2 { kbuf.as_ref().map(|k| k.read().unwrap()) } else { None };
-        let _g4 = if self.ds_locked == 2 { dbuf.as_ref().map(|d| d.read().unwrap()) } else { None };
+        let _g1 = if self.kb_locked == 1 { kbuf.as_ref().map(|k| k.write().unwrap_or_else(|e| e.into_inner())) } else { None };
+        let _g2 = if self.ds_locked == 1 { dbuf.as_ref().map(|d| d.write().unwrap_or_else(|e| e.into_inner())) } else { None };
+        let _g3 = if self.kb_locked == 2 { kbuf.as_ref().map(|k| k.read().unwrap_or_else(|e| e.into_inner())) } else { None };
+        let _g4 = if self.ds_locked == 2 { dbuf.as_ref().map(|d| d.read().unwrap_or_else(|e| e.into_inner())) } else { None };
         f(&mut self.sim)
     }
 
@@ -199,8 +199,8 @@ impl SimCtx {
             }
             if n > 12 { s.push_str(&format!(",+{}", n - 12)); }
         } else if let Some(a) = self.ssp_addr { self.shadow[a as usize] = sim.mem[a]; }
-        let kb = self.kb.as_ref().map(|k| { let g = k.get_buffer().read().unwrap(); let v: Vec<u8> = g.iter().copied().collect(); bytes_digest(&v) }).unwrap_or("-".into());
-        let ds = self.ds.as_ref().map(|d| { let g = d.get_buffer().read().unwrap(); bytes_digest(&g) }).unwrap_or("-".into());
+        let kb = self.kb.as_ref().map(|k| { let g = k.get_buffer().read().unwrap_or_else(|e| e.into_inner()); let v: Vec<u8> = g.iter().copied().collect(); bytes_digest(&v) }).unwrap_or("-".into());
+        let ds = self.ds.as_ref().map(|d| { let g = d.get_buffer().read().unwrap_or_else(|e| e.into_inner()); bytes_digest(&g) }).unwrap_or("-".into());
         s.push_str(&format!(" kb={} ds={}", kb, ds));
         for (id, t) in &self.timers { let g = t.lock().unwrap(); s.push_str(&format!(" t{}={}:{}", id, g.get_remaining(), g.enabled as u8)); }
         if self.timed_out { s.push_str(" TIMEOUT"); }
@@ -276,9 +276,19 @@ impl SimCtx {
             ["dsset"] => { let d = BufferedDisplay::default(); self.sim.device_handler.set_display(d.clone()); self.ds = Some(d); self.ds_locked = 0; "ok".into() }
             ["kbpush", hx] => {
                 let Some(k) = &self.kb else { return "nokb".into() };
-                let mut g = k.get_buffer().write().unwrap();
+                let mut g = k.get_buffer().write().unwrap_or_else(|e| e.into_inner());
                 let cs: Vec<char> = hx.chars().collect();
                 for p in cs.chunks(2) { if p.len() == 2 { if let Ok(x) = u8::from_str_radix(&format!("{}{}", p[0], p[1]), 16) { g.push_back(x); } } }
+                "ok".into()
+            }
+            ["poison", which] => {
+                // another thread panics while holding the buffer's write guard: the lock is free again but poisoned
+                let buf = match *which { "kb" => self.kb.as_ref().map(|k| k.get_buffer().clone()).map(Ok), "ds" => self.ds.as_ref().map(|d| d.get_buffer().clone()).map(Err), _ => return "bad-op".into() };
+                let prev = std::panic::take_hook(); std::panic::set_hook(Box::new(|_| {}));
+                match buf { Some(Ok(b)) => { let _ = std::thread::spawn(move || { let _g = b.write().unwrap(); panic!("poison") }).join(); }
+                            Some(Err(b)) => { let _ = std::thread::spawn(move || { let _g = b.write().unwrap(); panic!("poison") }).join(); }
+                            None => {} }
+                std::panic::set_hook(prev);
                 "ok".into()
             }
             ["lock", which, v] => {
